@@ -165,20 +165,29 @@ PENDING_REASON ="check not yet built in this revision of /verif (no technical ob
 EXTRA = {
     "C01": "Further phases: 'minmax' (merged blocks whose range is the hull of several source ranges, prefilter-only queries with operands next to the stored values).",
     "C02": "Further phases: 'minmax' (as C01) and 'blockmeta' (the block-granular clauses judged directly on EvaluateDataBlockMetadata/FilterDataBlocks over generated metadata).",
-    "C03": "Further phase 'pool': abnormally ending queries (failed/corrupted row-data read, early Close, cancel) followed by a query parked mid-scan by a stalled consumer while other queries scan equally sized blocks.",
+    "C03": "Further phase 'pool': abnormally ending queries (failed/corrupted row-data read, early Close, cancel) followed by a query parked mid-scan by a stalled consumer while other queries scan equally sized blocks. Also 'bigpool': multi-chunk filter regions with a failing later chunk read and row data in the chunk buffers' size class.",
     "C04": "The engine-level 'e2e' phase uses histories of 3-8 small flushed files merged once or twice and prefilter-only queries.",
     "C05": "Further phase 'stoprace': callers held between the engine's stopped check and its enqueue by a Context whose Done() parks, released before/during/after Stop.",
     "C06": "Further phase 'badbatch' (rejection-heavy partitioned histories, no injected faults); 'error means absent' is also judged with the filesystem store as MetaStore unless a cleanup call itself was made to fail.",
-    "C08": "Further phase 'stoprace' (see C05).",
-    "C10": "Generator modes: mixed limits, exactly one binding limit, and a trickle of small/empty requests inside every time window; answers are time-stamped by live receivers and bounded from each batch's own acceptance.",
+    "C08": "Further phase 'stoprace' (see C05). When wedged: abandoned channels on producer batches, deep-backlog and quiet-wedge shapes, Flush callers queued behind the wedge (must return, and with an error after a deadline error).",
+    "C10": "Generator modes: mixed limits, exactly one binding limit, and a trickle of small/empty requests inside every time window; answers are time-stamped by live receivers and bounded from each batch's own acceptance. Also a hum of empty requests faster than any polling period, and skewed multi-partition batches for the row-group byte limit; the obligation is re-derived from the still-unanswered batches when the buffer model may be stale.",
     "C13": "Single-flight is checked with three further Merge calls made one after the other while the first is gated.",
-    "C16": "Sequences include redundant Close/Abort/Write calls on a writer whose Close already succeeded.",
-    "C19": "Further phase 'transplant': a block's row data replaced by a complete valid compressed stream of identical sizes written to another store.",
-    "C20": "Scripts include 2-4 concurrent Close calls and a settle stall before a deliberate Close when faults are planned.",
-    "C21": "Handle and iterator accounting is also snapshotted at the return of each individual Close call (sequential, asynchronous, or one of several concurrent ones).",
-    "C24": "Further phase 'transient': the same expectations with a one-shot OpenFile/Read/Seek failure inside about half of the queries.",
+    "C16": "Sequences include redundant Close/Abort/Write calls on a writer whose Close already succeeded. Also a Close made to fail before publishing (its .tmp removed) whose owner aborts and tombstones only later.",
+    "C19": "Further phase 'transplant': a block's row data replaced by a complete valid compressed stream of identical sizes written to another store. Hostile metadata includes cooperating pairs (a negative section size plus an extent beyond the file).",
+    "C20": "Scripts include 2-4 concurrent Close calls and a settle stall before a deliberate Close when faults are planned. Also a slow walk through buffered rows with a concurrent Close (repeated), and a world with a malformed block whose scan fails after its rows were matched.",
+    "C21": "Handle and iterator accounting is also snapshotted at the return of each individual Close call (sequential, asynchronous, or one of several concurrent ones). Further phase 'contended': 2-6 queries on one engine with MaxQueryConcurrency 1-3, slow handle Close, failing reads, then the full accounting and the budget recheck.",
+    "C24": "Further phase 'transient': the same expectations with a one-shot OpenFile/Read/Seek failure inside about half of the queries. External-writer files may carry blocks without a filter section next to blocks with one.",
     "C25": "Further phase 'shared': one expression value (constructor-built, JSON-decoded, append-built with spare capacity) used for several builder chains and constructor calls.",
-    "C26": "Further phase 'volume': 250 000 - 1 000 000 (thorough 3 000 000) distinct entries per block at rates down to 1e-12.",
+    "C26": "Further phase 'volume': 250 000 - 1 000 000 (thorough 3 000 000) distinct entries per block at rates down to 1e-12. The text is stored under 1-8 fields; a merge may be run by a second engine with a different rate.",
+    "C09": "A quarter of the cases: every Write/Close fails and the store hangs inside the failed flush's cleanup (Abort/TombstoneFile).",
+    "C12": "MaxFileSize is also set, per merge, at (or one byte under) what two real files add up to.",
+    "C11": "Shares the generated merges of C12 (MaxFileSize at real pair boundaries).",
+    "C14": "Span mode also with 66-140 files and an early pause, and with the querying engine started or already stopped.",
+    "C15": "Histories include partition groups (several merge groups per Merge) and merges failing in a later group.",
+    "C17": "Further phases: 'faulted' (histories with one-shot store failures inside) and 'shapes' (extreme but legal block shapes: compression ratios in the thousands, one 1.5 MB row, empty rows).",
+    "C18": "Further phases 'faulted' and 'shapes' (as C17).",
+    "C23": "The fault phase also queries the multi-chunk filter world with an expression that rules out most blocks, and a world with a malformed block.",
+    "C27": "Scenarios include double faults (a failure and the failure of the cleanup it provokes) aimed at a Merge that has a group to commit.",
 }
 
 def main():
